@@ -222,7 +222,9 @@ def r4_lines(run, F):
            F.where(lx), "lex() line iteration recognised")
     # every line gets lexed with the accumulated offset and 1-based line number
     cl = [c for c in hirq.calls(lx["hir"]) if hirq.callee(c) == "alpha::lexer::lex_line"]
-    ok = len(cl) == 1 and hirq.local_name_of(cl[0]["a"][2]) == "offset"
+    # the offset argument is the running offset: the local that the line loop advances (by role: it is the target of a `+=`)
+    adv = set(hirq.unwrap_trivial(n["lhs"]).get("lid") for n in walk(lx["hir"]) if n.get("k") == "AssignOp" and n.get("op") in ("Add", "AddAssign"))
+    ok = len(cl) == 1 and hirq.unwrap_trivial(cl[0]["a"][2]).get("lid") in adv
     ln = cl[0]["a"][3] if cl else {}
     ok = ok and ln.get("k") == "Binary" and ln.get("op") == "Add" and (ln["lhs"].get("v") == 1 or ln["rhs"].get("v") == 1)
     run.ob("R4-LINE-NUMBERS", "alpha::lexer::lex", ok, F.where(lx), "lex_line must receive the running offset and line number 1 + i")
@@ -232,8 +234,10 @@ def r5_units(run, F):
     b = F.body("alpha::stdout::StdOut::new")
     # evaluate the cfg! chain: conditions are boolean literals after expansion
     sel = None
+    index_lids = _index_lids(b)
     for n in walk(b["hir"]):
-        if n.get("k") == "Let" and n["pat"].get("name") == "index_type":
+        # by role: the local whose value is handed to with_index_type
+        if n.get("k") == "Let" and n["pat"].get("lid") in index_lids and isinstance(n.get("init"), dict):
             e = n["init"]
             while e.get("k") == "If":
                 c = hirq.unwrap_trivial(e["cond"])
@@ -254,10 +258,10 @@ def r5_units(run, F):
     for fn in ("alpha::lexer::lex", "alpha::lexer::lex_line"):
         lb = F.body(fn)
         for n in walk(lb["hir"]):
-            if n.get("k") == "AssignOp" and hirq.local_name_of(n["lhs"]) in ("offset", "source_offset_end", "source_offset_start"):
+            if n.get("k") == "AssignOp" and hirq.unwrap_trivial(n["lhs"]).get("rk") == "Local" and str(F.lib.ty(hirq.unwrap_trivial(n["lhs"]).get("t"))) == "usize":
                 cs = [hirq.callee(c) or "" for c in hirq.calls(n["rhs"])]
                 bad = [c for c in cs if c.endswith(("str::len", "str::as_bytes", "str::bytes", "String::len"))]
-                run.ob("R5-CHAR-UNITS", "%s|%s" % (fn, hirq.local_name_of(n["lhs"])), not bad, F.where(lb, n),
+                run.ob("R5-CHAR-UNITS", "%s|offset advance" % fn, not bad, F.where(lb, n),
                        "span offsets of the first generation are in characters; byte-based call %s" % bad)
         its = [hirq.callee(c) or "" for c in hirq.calls(lb["hir"])]
         if fn.endswith("lex_line"):
@@ -266,14 +270,23 @@ def r5_units(run, F):
     run.floor("R5-CHAR-UNITS", 10)
 
 
+def _index_lids(b):
+    return set(hirq.unwrap_trivial(c["a"][0]).get("lid") for c in hirq.calls(b["hir"])
+               if c.get("k") == "MethodCall" and c.get("name") == "with_index_type" and c.get("a"))
+
+
 def r6_config(run, F):
     b = F.body("alpha::stdout::StdOut::new")
+    index_lids = _index_lids(b)
     chain = [c for c in hirq.calls(b["hir"]) if c.get("k") == "MethodCall" and c.get("name") in ("with_color", "with_char_set", "with_index_type")]
     got = {}
     for c in chain:
         arg = c["a"][0]
-        got.setdefault(c["name"], []).append(hirq.local_name_of(arg) or ",".join(x.get("name", "") for x in walk(arg) if x.get("k") in ("Field",)))
-    ok = got.get("with_index_type") == ["index_type"] and "with_color" in got and all(x == "with_color" for x in got["with_color"]) \
+        from rules import origins as _or
+        o = _or.origins(b["hir"], arg, b.get("params", ()))
+        flds = sorted(k[1] for k in o if k[0] == "field")
+        got.setdefault(c["name"], []).append("index-type local" if hirq.unwrap_trivial(arg).get("lid") in index_lids and not flds else ",".join(flds))
+    ok = got.get("with_index_type") == ["index-type local"] and "with_color" in got and all(x == "color" for x in got["with_color"]) \
         and got.get("with_char_set") == ["arrows"]
     run.ob("R6-CONFIG-PLUMBING", "StdOut::new", ok, F.where(b),
            "ariadne config must be built with_index_type(index_type).with_color(with_color).with_char_set(options.arrows): %s" % got, sample=got)
